@@ -28,6 +28,11 @@ pub struct Case {
 	pub setup: Vec<Op>,
 	/// (internal buffer size, callback sizes) per world; all sum to the same total
 	pub worlds: Vec<(usize, Vec<usize>)>,
+	/// overflow scene: one sound (+0.5, 0, -0.5, 0, ...) copied frame by frame under a main-track
+	/// gain of +1000 dB, two channels: the sum described by the documentation is 5e49 or 0, so
+	/// every sample is full scale with the source's sign, or silence
+	#[serde(default)]
+	pub overflow: bool,
 }
 
 /// A built-in effect at fixed parameters. The scene must be a *stable* system, or a rounding
@@ -100,6 +105,12 @@ fn gen_case(seed: u64, tier: Tier) -> Case {
 	let mut rng = Rng::new(seed);
 	let sample_rate = *rng.pick(&[8000u32, 22_050, 44_100, 48_000, 96_000, 8001]);
 	let channels = *rng.pick(&[1u16, 2, 2, 2, 3, 6]);
+	// overflow scenes (4%): a gain so large that the mix overflows (+1000 dB on the main track)
+	// over sounds with exactly silent frames in between: the mix holds +-inf and, where 0 x inf
+	// meets, isolated non-finite frames. What the device gets for each frame (full scale or
+	// silence) must not depend on the partition either
+	let overflow = rng.chance(0.04);
+	let channels = if overflow { 2 } else { channels };
 	let mut g = G::new(&mut rng, Tiers { t1: 0.0, t2: 0.0 });
 	g.allow_mod_links = false;
 	g.allow_clock_starts = false;
@@ -107,26 +118,26 @@ fn gen_case(seed: u64, tier: Tier) -> Case {
 		sample_rate,
 		internal_buffer_size: 128,
 		caps: CapsSpec::default(),
-		main_volume: Val::Fixed(Db(g.rng.frange(-12.0, 3.0) as f32)),
-		main_effects: fixed_effects(&mut g, 2, sample_rate),
+		main_volume: Val::Fixed(Db(if overflow { 1000.0 } else { g.rng.frange(-12.0, 3.0) as f32 })),
+		main_effects: if overflow { vec![] } else { fixed_effects(&mut g, 2, sample_rate) },
 		main_sound_capacity: 16,
 	};
 	let mut setup = Vec::new();
-	let n_sends = g.rng.usize_below(3);
+	let n_sends = if overflow { 0 } else { g.rng.usize_below(3) };
 	for _ in 0..n_sends {
 		setup.push(Op::AddSend {
 			volume: Val::Fixed(Db(g.rng.frange(-12.0, 3.0) as f32)),
 			effects: fixed_effects(&mut g, 2, sample_rate),
 		});
 	}
-	let spatial = g.rng.chance(0.25);
+	let spatial = !overflow && g.rng.chance(0.25);
 	if spatial {
 		setup.push(Op::AddListener {
 			position: Val::Fixed(V3([g.rng.frange(-5.0, 5.0) as f32, 0.0, g.rng.frange(-5.0, 5.0) as f32])),
 			orientation: Val::Fixed(Q4([0.0, 0.0, 0.0, 1.0])),
 		});
 	}
-	let n_tracks = g.rng.usize_below(5);
+	let n_tracks = if overflow { 0 } else { g.rng.usize_below(5) };
 	for t in 0..n_tracks {
 		let mut sends = vec![];
 		for s in 0..n_sends {
@@ -193,7 +204,7 @@ fn gen_case(seed: u64, tier: Tier) -> Case {
 			channels,
 		});
 	}
-	let n_sounds = g.rng.urange(1, 5);
+	let n_sounds = if overflow { 1 } else { g.rng.urange(1, 5) };
 	let mut any_streaming = false;
 	let total_frames = match tier {
 		Tier::Quick => g.rng.urange(300, 2500),
@@ -216,7 +227,8 @@ fn gen_case(seed: u64, tier: Tier) -> Case {
 				_ => Signal::Index { scale: 8192.0 },
 			},
 		};
-		let streaming = g.rng.chance(0.3);
+		let data = if overflow { DataSpec { signal: Signal::Gapped { amp: 0.5 }, ..data } } else { data };
+		let streaming = !overflow && g.rng.chance(0.3);
 		any_streaming |= streaming;
 		let rate = match g.rng.below(6) {
 			0..=2 => 1.0,
@@ -229,6 +241,11 @@ fn gen_case(seed: u64, tier: Tier) -> Case {
 		let mut data = data;
 		data.sample_rate = if streaming { sample_rate } else { *g.rng.pick(&[sample_rate, sample_rate, 8000, 44_100, 48_000]) };
 		let rate = if !streaming && g.rng.chance(0.2) { -rate } else { rate };
+		// (overflow scenes: copied frame by frame, so that the silent frames stay exactly silent)
+		let rate = if overflow { 1.0 } else { rate };
+		if overflow {
+			data.sample_rate = sample_rate;
+		}
 		let loop_region = if g.rng.chance(0.4) {
 			let a = g.rng.usize_below(len);
 			Some(RegionSpec {
@@ -238,12 +255,13 @@ fn gen_case(seed: u64, tier: Tier) -> Case {
 		} else {
 			None
 		};
+		let loop_region = if overflow { None } else { loop_region };
 		let settings = SoundSettingsSpec {
 			start: StartSpec::Immediate,
-			start_position: if g.rng.chance(0.6) { Pos::Samples(0) } else { Pos::Samples(g.rng.usize_below(len)) },
+			start_position: if overflow || g.rng.chance(0.6) { Pos::Samples(0) } else { Pos::Samples(g.rng.usize_below(len)) },
 			loop_region,
-			reverse: !streaming && g.rng.chance(0.15),
-			volume: Val::Fixed(Db(g.rng.frange(-18.0, 0.0) as f32)),
+			reverse: !overflow && !streaming && g.rng.chance(0.15),
+			volume: Val::Fixed(Db(if overflow { 0.0 } else { g.rng.frange(-18.0, 0.0) as f32 })),
 			rate: Val::Fixed(Rate(rate)),
 			panning: Val::Fixed(Pan(*g.rng.pick(&[0.0f32, -1.0, 1.0, 0.4, -0.7]))),
 			fade_in: None,
@@ -313,6 +331,7 @@ fn gen_case(seed: u64, tier: Tier) -> Case {
 		channels,
 		setup,
 		worlds,
+		overflow,
 	}
 }
 
@@ -381,6 +400,37 @@ pub fn run_case(case: &Case) -> CaseResult {
 			}
 		}
 		res.nontrivial = nonsilent;
+		if case.overflow {
+			// the sum the documentation describes is source x pan x 10^50: far outside [-1, 1] where
+			// the source is not silent, exactly 0 where it is (that f32 turns these into inf and
+			// 0 x inf is the renderer's business): full scale with the source's sign, or silence
+			if let Some(Op::PlayStatic { data, settings, .. }) = case.setup.iter().find(|o| matches!(o, Op::PlayStatic { .. })) {
+				let pan = match settings.panning {
+					Val::Fixed(Pan(p)) => p,
+					_ => 0.0,
+				};
+				for k in 0..base.len() / ch {
+					let src = if k < data.len { data.frame(k) } else { kira::Frame::ZERO };
+					let f = src.panned(kira::Panning(pan));
+					for (c, v) in [f.left, f.right].iter().enumerate() {
+						let want = if *v > 0.0 { 1.0 } else if *v < 0.0 { -1.0 } else { 0.0 };
+						let got = base[k * ch + c];
+						if got != want {
+							res.fail(Violation::new(
+								"overflow",
+								"overflowing-sum-not-clamped",
+								format!("frame {k} channel {c}: the source frame is {v} (after panning {pan}), the main track's gain +1000 dB: the documented sum is {} and the device must get {want}, it got {got}", if *v == 0.0 { "0".to_string() } else { format!("{:e}", *v as f64 * 1e50) }),
+							));
+							break;
+						}
+					}
+					if res.violation.is_some() {
+						break;
+					}
+				}
+				res.hit("overflow_scenes_checked");
+			}
+		}
 		for (wi, s) in streams.iter().enumerate().skip(1) {
 			if s.len() != base.len() {
 				res.fail(Violation::new("twin-worlds", "length-differs", format!("world {wi} rendered {} samples, world 0 {}", s.len(), base.len())));
@@ -440,7 +490,7 @@ impl Check for C11 {
 		CheckInfo {
 			id: "C11",
 			level: "exploration",
-			rule: "each case = a scene (main/sub/spatial/send tracks with every built-in effect at fixed parameters incl. effects nested in a delay's feedback loop, 1..5 static or streaming sounds with any rate, loop, reverse, pan, immediate start; a quarter of the scenes with tracks begin with a prelude in which some tracks are paused and resumed with fades before anything plays, and play once every world has them Playing again) rendered in three worlds that differ only in internal buffer size (1..4096) and callback partition (1-frame, equal to the buffer, random, non-multiples, zero-frame, one huge callback); non-trivial = non-silent output; distinct = hash of (recursive?, scene size, buffer sizes, partition classes, channels)",
+			rule: "each case = a scene (main/sub/spatial/send tracks with every built-in effect at fixed parameters incl. effects nested in a delay's feedback loop, 1..5 static or streaming sounds with any rate, loop, reverse, pan, immediate start; a quarter of the scenes with tracks begin with a prelude in which some tracks are paused and resumed with fades before anything plays, and play once every world has them Playing again; 4% are overflow scenes - one sound with exactly silent frames in between, copied frame by frame under a main-track gain of +1000 dB, so that the mix holds infinities and isolated non-finite frames: every sample is full scale with the source's sign, or silence) rendered in three worlds that differ only in internal buffer size (1..4096) and callback partition (1-frame, equal to the buffer, random, non-multiples, zero-frame, one huge callback); non-trivial = non-silent output; distinct = hash of (recursive?, scene size, buffer sizes, partition classes, channels)",
 			assumptions: vec![
 				"parameters are constant (no modulators, tweens, delayed or clock starts, no commands after setup), as the property requires".into(),
 				"streaming decoders are run until they sleep or end before every callback in every world (decoder keeps ahead)".into(),
